@@ -131,6 +131,10 @@ func validateRecoverRequest(info *RecoverRequestInfo) error {
 		return errors.New("cannot provide both opaque document and patches")
 	}
 
+	if err := validateAnchorTimes(info.AnchorFrom, info.AnchorUntil); err != nil {
+		return err
+	}
+
 	if err := validateSigner(info.Signer); err != nil {
 		return err
 	}
